@@ -88,7 +88,6 @@ Variable T : tables.
 Variable wfuel : nat.
 Notation ext := (helpers_ext T).
 Notation run_ := (run Ob W ext wfuel srco_helpers_prog).
-Notation exotic := (@RFail (val Ob) (FUnmodelled "int() of an exotic spelling")).
 
 Ltac at_meth := unfold run, srco_helpers_prog; rewrite ?link_skip by reflexivity; rewrite link_here.
 Ltac enter m := cbv [call m m_params m_locals m_body bind_params map app].
@@ -116,8 +115,8 @@ Proof.
   - (* one group level: int(att[1]) *)
     cbn [List.length]. zc. sx.
     change (index_list Ob (map VStr [x; y]) 1) with (@ROk (val Ob) (VStr y)). sx.
-    destruct (py_int y) as [n| |]; sx; try reflexivity.
-    cbn [pick]. change (matches "ValueError" ["ValueError"]) with true. sx. reflexivity.
+    (* ValueError is caught: 0 *)
+    destruct (py_int y) as [n| |]; sx; reflexivity.
   - (* nested group levels: tuple(int(att[i]) for i in range(1, ln)) *)
     set (l := x :: y :: z :: r).
     assert (E2 : (Z.of_nat (List.length l) =? 2) = false) by (apply Z.eqb_neq; cbn [List.length l]; lia).
@@ -126,8 +125,7 @@ Proof.
     replace (Z.to_nat (Z.of_nat (List.length l) - 1)) with (List.length (y :: z :: r)) by (cbn [List.length l]; lia).
     rewrite range_from_1.
     rewrite (tr_go_ints Ob W ext _ "i" "att" l) with (rest := y :: z :: r) by reflexivity.
-    destruct (ints (y :: z :: r)) as [[t|]|]; sx; try reflexivity.
-    cbn [pick]. change (matches "ValueError" ["ValueError"]) with true. sx. reflexivity.
+    destruct (ints (y :: z :: r)) as [[t|]|]; sx; reflexivity.
 Qed.
 
 (* ================= 3. datadesc ================= *)
@@ -160,7 +158,9 @@ Definition dd_rest : list stmt :=
 Definition dd_state (s key:string) (a:env Ob) (w:W) : state Ob W :=
   {| locals := [("datafield", VStr s); ("key", VStr key); ("_", VUnbound); ("desc", VUnbound)]; self := a; world := w |}.
 
-Notation M0 := (link Ob W ext wfuel []).
+(* no method is called: any method table *)
+Section Loop.
+Variable M0 : string -> option (mcall Ob W).
 
 (* the loop and what follows it, with loop budget k and the model's fuel both beyond the length of the key *)
 Lemma dd_loop_ok s a w : forall k fuel key,
@@ -191,11 +191,11 @@ Proof.
       sx. rewrite ext_field, EF. sx. reflexivity.
 Qed.
 
-Theorem src_datadesc_eq s a w :
+Lemma datadesc_ok s a w :
   (String.length s < wfuel)%nat ->
-  run_ "datadesc" [VStr s] a w = (img_desc (datadesc T s), (a, w)).
+  call Ob W ext M0 wfuel "datadesc" srco_helpers_datadesc [VStr s] a w = (img_desc (datadesc T s), (a, w)).
 Proof.
-  intro Hw. at_meth.
+  intro Hw.
   change (call Ob W ext M0 wfuel "datadesc" srco_helpers_datadesc [VStr s] a w)
     with (finish (PyO.exec_list Ob W ext M0 wfuel (m_body srco_helpers_datadesc)
                     {| locals := [("datafield", VStr s); ("key", VUnbound); ("_", VUnbound); ("desc", VUnbound)]; self := a; world := w |})).
@@ -205,6 +205,14 @@ Proof.
   rewrite exec_list_cons, exec_while.
   unfold datadesc. apply (dd_loop_ok s a w wfuel (S (String.length s)) s); lia.
 Qed.
+End Loop.
+
+(* the interpreter's loop budget must exceed the length of the string (at most one round per character, plus the last test of
+   the condition); the model's own fuel is S (length s) *)
+Theorem src_datadesc_eq s a w :
+  (String.length s < wfuel)%nat ->
+  run_ "datadesc" [VStr s] a w = (img_desc (datadesc T s), (a, w)).
+Proof. intro Hw. at_meth. apply datadesc_ok. exact Hw. Qed.
 End Helpers.
 
 Goal True. idtac "PA:src_att2name_eq". Abort.
